@@ -17,7 +17,7 @@ for meta in sorted(glob.glob(root + '/C*/out/m[0-9].json')):
     if only and prop not in only: continue
     out = f'/tmp/mut/results/{prefix}{prop}_m{n}.json'
     old = json.load(open(out)) if os.path.exists(out) else None
-    if old and (own_only or len(old.get('matrix', {})) >= 20): continue
+    if old and ((own_only and prop in old.get("matrix", {})) or len(old.get("matrix", {})) >= 20): continue
     if old:
         v = old['verify']
     else:
